@@ -52,7 +52,7 @@ def run_one(mod, mon, kind, idx):
     rng = case_rng(mod.PID, mon.seed, kind, idx)
     mon.case = (kind, idx)
     mon.cases_run += 1
-    timeout = getattr(mod, "CASE_TIMEOUT", 120)
+    timeout = 1200 if kind == "suite" else getattr(mod, "CASE_TIMEOUT", 120)  # "suite": one pytest run of the repository's own tests (xgimon/suite.py)
     signal.signal(signal.SIGALRM, _alarm)
     signal.alarm(timeout)
     try:
